@@ -266,7 +266,7 @@ add_directory_index_section (guint8 *data, GIrModule *module, guint32 *offset2)
   Header *header = (Header*)data;
   GITypelibHashBuilder *dirindex_builder;
   guint i, n_interfaces;
-  guint16 required_size;
+  guint32 required_size;
   guint32 new_offset;
 
   dirindex_builder = _gi_typelib_hash_builder_new ();
